@@ -893,4 +893,17 @@ def audit_assert_cases(ctx):
         "bi 0 8 1 ? 0; titem 0", "bs 0 61 ? 0; bs 0 62 ? 0 1; chunk 0 1", "bs 1 61 ? 0; bs 1 62 ? 0 1; chunk 0 1", "nis 0 ? 0; seth 0 6162", "nis 1 ? 0; seth 0 6162",
         "bi 1 8 1 ? 0; sert uint 0 4", "bi 0 8 1 ? 0; sert negint 0 4", "bs 1 61 ? 0; sert bytes 0 4", "bs 0 61 ? 0; sert string 0 4",
         "nim ? 0; sert array 0 4", "nia ? 0; sert map 0 4", "nia ? 0; sert tag 0 4", "nt 1 ? 0; sert fc 0 4", "bf 16 0 ? 0; sert uint 0 4", "bc 20 ? 0; sert tag 0 1",
+        # AUDIT.md D3: cbor_bytestring_add_chunk asserts cbor_isa_bytestring(chunk) and cbor_bytestring_is_definite(chunk)
+        # (model: FAssert 20 / 21); cbor_string_add_chunk asserts nothing about the chunk
+        "bi 0 8 1 ? 0; nis 0 ? 0 1; chunk 1 0", "bs 1 61 ? 0; nis 0 ? 0 1; chunk 1 0", "nis 0 ? 0; nis 0 ? 0 1; chunk 1 0",
+        "nis 1 ? 0; nis 0 ? 0 1; chunk 1 0", "nia ? 0; nis 0 ? 0 1; chunk 1 0", "nt 1 ? 0; nis 0 ? 0 1; chunk 1 0", "bf 32 0 ? 0; nis 0 ? 0 1; chunk 1 0",
+        # D3b: a text string accepts any chunk, and cbor_serialize_string then asserts cbor_isa_string on it (model: FAssert 73)
+        "bs 0 61 ? 0; nis 1 ? 0 1; chunk 1 0 ? 0 1; ser 1 8", "bi 0 8 1 ? 0; nis 1 ? 0 1; chunk 1 0 ? 0 1; ser 1 8",
+        "nia ? 0; nis 1 ? 0 1; chunk 1 0 ? 0 1; ser 1 8", "nt 1 ? 0; nis 1 ? 0 1; chunk 1 0 ? 0 1; ser 1 8",
+        "nis 0 ? 0; nis 1 ? 0 1; chunk 1 0 ? 0 1; ser 1 8", "bs 0 61 ? 0; nis 1 ? 0 1; chunk 1 0 ? 0 1; salloc 1",
+        # ... while cbor_copy and cbor_decref of such a text string assert nothing (cbor_string_add_chunk takes the copy as it is)
+        "bs 0 61 ? 0; nis 1 ? 0 1; chunk 1 0 ? 0 1; copy 1 ? 0 1 2; dec 2; dec 1 ? 0; dec 0",
+        "bi 0 8 1 ? 0; nis 1 ? 0 1; chunk 1 0 ? 0 1; copy 1 ? 0 1 2; dec 0 ? 1 2; dec 1 ? 2; dec 2",
+        # the chunk of a byte string is copied by cbor_copy and handed to cbor_bytestring_add_chunk: definite byte strings pass
+        "bs 0 61 ? 0; nis 0 ? 0 1; chunk 1 0 ? 0 1; copy 1 ? 0 1 2; ser 2 8; dec 2; dec 1; dec 0",
     ]
